@@ -180,3 +180,35 @@ pub fn spec_session(u: &[u8], p: &[u8], salt: &[u8], b: &[u8], a: &[u8], g: u8, 
     let m2 = sha(&[&a_pub, &m1, &k]);
     SpecSession { v: le32b(&v), b_pub, a_pub, s, k, m1, m2 }
 }
+
+/// Search, with the textbook arithmetic only (independent of wow_srp), for a client private key `a`
+/// such that the session secret S of (user, password, salt, b, a) satisfies `pred`; 16 threads.
+/// Returns the 112-byte tape (salt | b | a | challenge) of the first hit.
+pub fn search_secret_shape(seed: u64, tag: &str, u: &str, p: &str, tries_per_thread: usize, pred: impl Fn(&[u8; 32]) -> bool + Sync) -> Option<Vec<u8>> {
+    let mut r0 = Rng::new(seed, &format!("{}/base", tag));
+    let salt = r0.bytes(32); let b = r0.bytes(32); let chal = r0.bytes(16);
+    let (un, pn) = (ns(u), ns(p));
+    let n = bi(&NLE); let gz = BigInt::from(GENERATOR); let k3 = BigInt::from(3);
+    let x = bi(&spec_x(un.as_ref().as_bytes(), pn.as_ref().as_bytes(), &salt));
+    let v = gz.modpow(&x, &n);
+    let bz = bi(&b);
+    let b_pub = le32b(&modp(&(&k3 * &v + gz.modpow(&bz, &n)), &n));
+    let stop = std::sync::atomic::AtomicBool::new(false);
+    let hits = par(16, |t| {
+        let mut r = Rng::new(seed, &format!("{}/{}", tag, t));
+        for _ in 0..tries_per_thread {
+            if stop.load(std::sync::atomic::Ordering::Relaxed) { return None; }
+            let a = r.bytes(32);
+            let az = gz.modpow(&bi(&a), &n);
+            if az.sign() == Sign::NoSign { continue; }
+            let a_pub = le32b(&az);
+            let uz = bi(&sha(&[&a_pub, &b_pub]));
+            let s = le32b(&(&az * v.modpow(&uz, &n) % &n).modpow(&bz, &n));
+            if pred(&s) { stop.store(true, std::sync::atomic::Ordering::Relaxed); return Some(a); }
+        }
+        None
+    });
+    let a = hits.into_iter().flatten().next()?;
+    let mut tape = salt.clone(); tape.extend_from_slice(&b); tape.extend_from_slice(&a); tape.extend_from_slice(&chal);
+    Some(tape)
+}
